@@ -330,7 +330,8 @@ def shrink_candidates(rec):
             if c:
                 r = copy.deepcopy(rec); r['ops'] = c; yield r
     for i, op in enumerate(rec['ops']):
-        r = copy.deepcopy(rec); r['ops'][i]['T'] = op['T'] / 2; yield r
+        if op['T'] > 1e-4:
+            r = copy.deepcopy(rec); r['ops'][i]['T'] = op['T'] / 2; yield r
         if op['it'] != 'euler':
             r = copy.deepcopy(rec); r['ops'][i]['it'] = 'euler'; yield r
     if rec.get('cap', 0) > 20:
